@@ -381,7 +381,11 @@ Definition copy_ty (R : grec) (t : tyh) (m : copymap) : M (tyh * copymap) :=
     ret (HEnum name sp (fst rf) (fst ra), snd ra)
   end.
 
-(* fn inner_copy (1645) *)
+(* matches!(ty, Type::Void | Type::Nil | Type::Int | Type::Float | Type::Bool | Type::Str) *)
+Definition is_basic (t : tyh) : bool :=
+  match t with HVoid | HNil | HInt | HFloat | HBool | HStr => true | _ => false end.
+
+(* fn inner_copy (1729) *)
 Definition copy_body (R : grec) (old : tyid) (m : copymap) : M (tyid * copymap) :=
   old <- find old ;;
   match copy_lookup old m with
@@ -389,6 +393,11 @@ Definition copy_body (R : grec) (old : tyid) (m : copymap) : M (tyid * copymap) 
   | None =>
     new <- push_type HUnknown ;;
     let m := (old, new) :: m in
+    (* a basic type is fully known: the copy gets that type and NO constraints (since 8ab9717; following the
+       constraints of int / float / bool / str nodes copied everything ever combined with them, and doubled it with
+       every later copy) *)
+    t0 <- find_type old ;;
+    if is_basic t0 then set_type new t0 ;;; ret (new, m) else
     n <- find_node old ;;
     '(cs, m) <- foldM (fun acc c => r <- copy_constr R c (snd acc) ;; ret (cinsert (fst r) (fst acc), snd r))
                       (ncons n) ([], m) ;;
